@@ -536,7 +536,9 @@ class Run:
                 want[nz[0]] = sum(un) - 3
                 if not all(C.close(a, b) for a, b in zip(g, want)):
                     self.violate(n, 'single-type profile %r: hardener %d exposes %r, expected %r' % (prof, i, g, want))
-        if inq and recs and not had:
+        # (shift amount 0 is inside the quantifier but may legitimately end in the caught division by zero of the
+        # no-loop estimate; the fallback then equals the result)
+        if inq and recs and not had and all(rah_inputs(cfg, r)[1] > 0 for r in run_rahs):
             self.violate(n, 'simulation fell back with inputs inside the quantifier: %r' % (recs,))
 
     def converges(self, run_rahs):
@@ -767,6 +769,24 @@ def compare(rep, run, outs):
         n, i, got, base = run.plain_mismatch
         rep.disagree('rah.not-running hardener exposes plain values', base, got, {'history': run.hist, 'step': n})
         return
+    frag = False          # the stored results stem from a run the model flagged fragile
+
+    def ran(outcome, looped, ticks, fr, n):
+        nonlocal frag
+        if outcome == 'stored':
+            return
+        frag = fr == '1'
+        rep.dist['run:' + outcome + (':loop' if looped == '1' else ':noloop' if outcome == 'ok' else '')] += 1
+        rep.dist['hardeners:%d' % n] += 1
+        rep.dist['fragile-flagged'] += frag
+        if outcome == 'ok':
+            run.sig.append((n, looped, ticks))
+
+    def differ(where, model, impl, case):
+        if frag:
+            rep.fragile += 1
+        else:
+            rep.disagree(where, model, impl, case)
     for idx, kind, data, step in run.expect:
         line = outs[idx]
         case = {'history': run.hist, 'step': step}
@@ -778,35 +798,24 @@ def compare(rep, run, outs):
                 rep.disagree('rah.L2 (stored results / cached ship resonances / K2 ghost)', got, data, case)
                 return
         elif kind == 'ship':
-            val = line.split()[1]
+            _, outcome, looped, ticks, fr, val = line.split()
+            ran(outcome, looped, ticks, fr, len(run.im.sim_data()))
             if val == 'none' or not isinstance(data, (int, float)) or not C.close(float(C.unq(val)), data):
-                rep.disagree('rah.ship-resonance', val if val == 'none' else float(C.unq(val)), data, case)
+                differ('rah.ship-resonance', val if val == 'none' else float(C.unq(val)), data, case)
                 return
         else:
             head, *vecs = line.split(';')
-            _, outcome, looped, ticks, frag, stale = head.split()
-            if outcome != 'stored':
-                rep.dist['run:' + outcome + (':loop' if looped == '1' else ':noloop' if outcome == 'ok' else '')] += 1
-                rep.dist['hardeners:%d' % len(vecs)] += 1
-                if outcome == 'ok':
-                    run.sig.append((len(vecs), looped, ticks))
+            _, outcome, looped, ticks, fr, stale = head.split()
+            ran(outcome, looped, ticks, fr, len(vecs))
             mvals = [[float(C.unq(x)) for x in v.split()] for v in vecs]
             if len(mvals) != len(data['order']):
                 rep.disagree('rah.hardener-count', len(mvals), data['order'], case)
                 return
-            bad = None
             for pos, i in enumerate(data['order']):
                 for t, x in data['vals'].get(i, {}).items():
                     if not isinstance(x, (int, float)) or not C.close(mvals[pos][T.index(t)], x):
-                        bad = (i, t, mvals[pos], x)
-            if frag == '1':
-                rep.dist['fragile-flagged'] += 1
-            if bad:
-                if frag == '1':
-                    rep.fragile += 1
-                    return
-                rep.disagree('rah.resonances', {'hardener': bad[0], 'type': bad[1], 'model': bad[2]}, bad[3], case)
-                return
+                        differ('rah.resonances', {'hardener': i, 'type': t, 'model': mvals[pos]}, x, case)
+                        return
 
 
 def run_batch(rep, hists, laws=True, fresh=True):
